@@ -18,6 +18,7 @@ type fctx struct {
 	pools     map[string]bool
 	loops     []string
 	nloop     *int
+	nfor      *int
 	ntmp      int
 	pre       []string
 	noBind    int
@@ -34,8 +35,8 @@ type konts struct {
 }
 
 func newFctx(t *tr, q string) *fctx {
-	n := 0
-	return &fctx{t: t, q: q, pools: map[string]bool{}, names: map[*types.Var]string{}, used: map[string]int{}, locals: map[*types.Var]bool{}, nloop: &n}
+	n, m := 0, 0
+	return &fctx{nfor: &m, t: t, q: q, pools: map[string]bool{}, names: map[*types.Var]string{}, used: map[string]int{}, locals: map[*types.Var]bool{}, nloop: &n}
 }
 
 func (fc *fctx) poolList() []string {
@@ -748,8 +749,8 @@ func (fc *fctx) forStmt(s *ast.ForStmt, rest []ast.Stmt, k konts) string {
 		pre = strings.TrimSuffix(pre, "\x00")
 	}
 	fc.needsFuel = true
-	*fc.nloop++
-	name := fmt.Sprintf("%s_loop%d", coqName(fc.q), *fc.nloop)
+	*fc.nfor++
+	name := fmt.Sprintf("%s_loop%d", coqName(fc.q), *fc.nfor)
 	var post []ast.Stmt
 	if s.Post != nil {
 		post = []ast.Stmt{s.Post}
